@@ -504,7 +504,7 @@ func (s *QueryHashSelection) Provision(ctx caddy.Context) error {
 }
 
 // Select returns an available host, if any.
-func (s QueryHashSelection) Select(pool UpstreamPool, req *http.Request, _ http.ResponseWriter) *Upstream {
+func (s QueryHashSelection) Select(pool UpstreamPool, req *http.Request, w http.ResponseWriter) *Upstream {
 	// Since the query may have multiple values for the same key,
 	// we'll join them to avoid a problem where the user can control
 	// the upstream that the request goes to by sending multiple values
@@ -514,7 +514,7 @@ func (s QueryHashSelection) Select(pool UpstreamPool, req *http.Request, _ http.
 	// different request, because the order of the values is significant.
 	vals := strings.Join(req.URL.Query()[s.Key], ",")
 	if vals == "" {
-		return s.fallback.Select(pool, req, nil)
+		return s.fallback.Select(pool, req, w)
 	}
 	return hostByHashing(pool, vals)
 }
@@ -585,7 +585,7 @@ func (s *HeaderHashSelection) Provision(ctx caddy.Context) error {
 }
 
 // Select returns an available host, if any.
-func (s HeaderHashSelection) Select(pool UpstreamPool, req *http.Request, _ http.ResponseWriter) *Upstream {
+func (s HeaderHashSelection) Select(pool UpstreamPool, req *http.Request, w http.ResponseWriter) *Upstream {
 	// The Host header should be obtained from the req.Host field
 	// since net/http removes it from the header map.
 	if s.Field == "Host" && req.Host != "" {
@@ -594,7 +594,7 @@ func (s HeaderHashSelection) Select(pool UpstreamPool, req *http.Request, _ http
 
 	val := req.Header.Get(s.Field)
 	if val == "" {
-		return s.fallback.Select(pool, req, nil)
+		return s.fallback.Select(pool, req, w)
 	}
 	return hostByHashing(pool, val)
 }
